@@ -19,8 +19,9 @@ ASSUMPTIONS = ['the initial state of a parsed document is taken from the executo
                'removeAttribute/removeAttributeNS release the removed Attr (Xerces memory model): the node leaves the live set',
                'children of Attr nodes are outside the live set (Attr is compared by value); Attr as insertion target is not generated',
                'strings are BMP-only; names come from fixed pools valid/invalid in all XML 1.0 editions; no "xmlns" names and no empty-string namespace (DOM2/DOM3 differ)']
-BUDGET = {'quick': 600, 'thorough': 7000}
+BUDGET = {'quick': 350, 'thorough': 900}
 WALLCAP = {'quick': 500, 'thorough': 3000}
+if os.environ.get('VERIF_DOM_BUDGET'): BUDGET = dict(BUDGET, quick=int(os.environ['VERIF_DOM_BUDGET']))    # development knob (sensitivity runs)
 
 # Known genuine defects of the unchanged tree: the input class is removed from the generator *by construction*.
 # Remove an id from this set (or set VERIF_C13_NOEXCL=id,id or =all) once the defect is fixed in /repo.
@@ -43,7 +44,7 @@ if _no == 'all': ACTIVE_EXCLUSIONS = set()
 elif _no: ACTIVE_EXCLUSIONS -= set(_no.split(','))
 
 OPTABLE = dh.expand(dh.CORE_OPS)
-MAXOPS = {'quick': 60, 'thorough': 300}
+MAXOPS = {'quick': 60, 'thorough': 200}
 
 def op_strategy():
     v = st.integers(0, 65535)
